@@ -310,7 +310,10 @@ def run_certificates(cases):
         parts = []
         for c in shard:
             body = "\n".join(l for l in c.impl_raw.split("\n") if not l.startswith("TOKENS") and not l.startswith("AST"))
-            parts.append("CHECKDUMP %s\n%s\nENDCHECK\n" % (c.name, body))
+            # the definition itself goes along, so that the model's own program can be compared (ProgIso.prog_iso_b)
+            deflines = [l for l in lexdef.case_text(c.name, c.d, []).split("\n")
+                        if l and not l.startswith("DEF ") and l != "ENDDEF"]
+            parts.append("CHECKDUMP %s\nMODELDEF\n%s\nENDMODELDEF\n%s\nENDCHECK\n" % (c.name, "\n".join(deflines), body))
         return run_lexmodel("".join(parts))
     with ThreadPoolExecutor(len(shards)) as ex:
         outs = list(ex.map(work, shards))
